@@ -443,8 +443,7 @@ struct Sys {
 
     // Canon: every field of the object that an operation of the alphabet reads, plus the model.
     // Left out on purpose: slot.current_state (written by setSlot, read only by getSlot, which the harness calls
-    // right after the write), slot.name, the NRPN scratch registers (the alphabet only sends complete sequences,
-    // whose first two messages overwrite all four registers before any of them is decisive), impl/instance/p (pointers).
+    // right after the write), slot.name, impl/instance/p (pointers).
     // fast appenders (snprintf dominated the profile): hex digits of the two's complement value, blank terminated
     static void put(std::string &s, long v)
     {
@@ -474,6 +473,10 @@ struct Sys {
                 s += "]";
             }
         }
+        // the (N)RPN scratch registers: on the unchanged tree the first two messages of a sequence overwrite all four before
+        // any is decisive, but a change to that code makes them state - they are part of the canon so that such a change
+        // shows up as a violation and not as merged states
+        s += "\nR "; put(s, m.NRPN.parhi); put(s, m.NRPN.parlo); put(s, m.NRPN.valhi); put(s, m.NRPN.vallo);
         s += "\nmodel q=";
         for(int x : I.q) put(s, x);
         s += "cc="; for(int x : I.ccmap) put(s, x);
